@@ -425,6 +425,26 @@ def propagate (an : Analyzer α) (cs : List (Constraint α)) (maxSteps : Nat) : 
 def analyze (domain : List (DomVar α)) (cs : List (Constraint α)) (tol : α) (maxSteps : Nat) : Analyzer α :=
   (fromDomain domain tol).propagate cs maxSteps
 
+/-- the `any` of `enforceable`: an `IntegerRange` variable whose inferred range holds no integer (after the
+tolerant rounding `apply_to_domain` uses). -/
+def emptyIntegerRange (an : Analyzer α) (domain : List (DomVar α)) : Bool :=
+  domain.any fun d =>
+    match d.ty with
+    | .int _ _ =>
+      match AList.get? an.variableBounds d.name with
+      | some b => Arith.gt (ceil (sub b.lower an.tolerance)) (floor (add b.upper an.tolerance))
+      | none => false
+    | _ => false
+
+/-- `enforceable` (fix cce0e38): when the analysis proved the model infeasible — a contradiction froze it, or
+an integer variable is left without an integral point — the inferred ranges are dropped (the declared
+domains are kept by `apply_to_domain`, so nothing would enforce them) and the declared ones are used. -/
+def enforceable (an : Analyzer α) (domain : List (DomVar α)) : Analyzer α :=
+  if an.detectedInfeasible || an.emptyIntegerRange domain then
+    { fromDomain domain an.tolerance with
+      detectedInfeasible := an.detectedInfeasible, reachedIterationLimit := an.reachedIterationLimit }
+  else an
+
 /-- the per-variable body of `apply_to_domain`. -/
 def applyToVar (an : Analyzer α) (d : DomVar α) : DomVar α :=
   match AList.get? an.variableBounds d.name with
@@ -460,6 +480,15 @@ def analyzeBounds {α : Type} [Arith α] (domain : List (DomVar α)) (cs : List 
   let an := Analyzer.analyze domain cs tol maxSteps
   { variables := domain.map fun d => (d.name, Analyzer.boundsOf an.variableBounds (.var d.name))
     expressions := exprs.map (Analyzer.boundsOf an.variableBounds)
+    domain := an.applyToDomain domain }
+
+/-- what `rooc::verif_hooks::linearizer_bounds` returns, given the constraints as `normalized_for_bounds`
+prepared them: `analyze(..).enforceable(&domain)`, then `apply_to_domain` — exactly what `Linearizer::linearize` uses. -/
+def linearizerBounds {α : Type} [Arith α] (domain : List (DomVar α)) (normalized : List (Constraint α))
+    (tol : α) (maxSteps : Nat) : BoundsReport α :=
+  let an := (Analyzer.analyze domain normalized tol maxSteps).enforceable domain
+  { variables := domain.map fun d => (d.name, Analyzer.boundsOf an.variableBounds (.var d.name))
+    expressions := []
     domain := an.applyToDomain domain }
 
 end Rooc
